@@ -264,6 +264,9 @@ class C08(Check):
                     discs.append(Disc("C08/send/position-not-in-call-order", f"position {k} holds id {resp[k].id!r}, call {k} has id {req.id!r} (extra null-id element present) | {where}"))
                     break
 
+        # whatever the body: what escapes send() is a library exception (identity / deserialisation / protocol error), never a crash
+        if exc is not None and not isinstance(exc, pjrpc.exc.BaseError):
+            discs.append(Disc(f"C08/send/non-library-exception/{type(exc).__name__}", f"{exc!r} | {where}"))
         # a server error without id next to a complete set of answers: whether the client refuses the array is left open, but the error
         # is a server error and must reach the caller as an exception - it cannot silently disappear
         null_errors = [el for el in body if isinstance(el, dict) and el.get('id') is None and 'error' in el] if isinstance(body, list) else []
